@@ -2,6 +2,7 @@
 (slot-level model proof + correspondence + exactly-once accounting on the real types)."""
 from lib import *
 from engines.coll import run_coll, finish_coll_obligation
+from engines.arena import run_arena, finish_arena_obligation
 
 MODULES = ["BumpProof.Props.C06"]
 
@@ -25,6 +26,9 @@ def run(ctx):
         "zero-sized input/output of map run the fallback: covered by the id-level theorem abstractly and by counting oracles on the implementation",
         "splice / map / into_flattened are not part of the history-level Op type (they exist on BumpVec only / change the element type)",
         "BumpBox<T> single-value routes (into_inner, leak, into_ref/into_mut) are not modelled",
+        "typed alloc_* family (alloc, alloc_with, alloc_slice_clone/fill/fill_with/move, alloc_iter(_exact), alloc_iter_mut(_rev)): exactly-once "
+        "accounting with injected callback panics by direct oracle in the arena harness (their placement is modelled: Props/C17Family); "
+        "the slice-initializer guard itself is not modelled at slot level",
     ]
     proved = prove(ctx, MODULES)
     run_coll(ctx, 700 if q else 100000, 12, "drops", oracle_props=["C06"])
@@ -34,6 +38,12 @@ def run(ctx):
     if (not proved or ctx.disagreements) and not ctx.oracle_failures and q:
         ctx.notes.append("proof/correspondence broken: running the thorough-tier search for a failing input")
         run_coll(ctx, 3000, 14, "deep", oracle_props=["C06"], seed_offset=1000, label="deep-search")
+    # the typed alloc_* family (alloc_with, alloc_slice_clone/fill/fill_with/move, alloc_iter*, alloc_iter_mut*) lives in the
+    # arena harness: instrumented element types, a panic injected at a random callback, exactly-once accounting afterwards
+    run_arena(ctx, 60 if q else 3000, 100, "general", fields=(0,), oracle_props=["C06"], seed_offset=40, label="family(general)")
+    if not q:
+        run_arena(ctx, 1500, 150, "scopes", fields=(0,), oracle_props=["C06"], seed_offset=41, label="family(scopes)")
+    finish_arena_obligation(ctx)
     finish_coll_obligation(ctx)
     return finish(ctx, "slot-level model of the slice/vector algorithms proved drop-exactly-once for every vector, argument, oracle and "
                        "set of panicking drops; model tied to the real types by replaying every logged operation")
